@@ -229,3 +229,108 @@ package planner
 //@   ensures[upper-never-widens] result0 != nil && lo.UpperAnchor != nil ==> result0.UpperAnchor != nil && tinst(deref(result0.UpperAnchor)) <= tinst(deref(lo.UpperAnchor))
 //@   ensures[input-untouched] lo.LowerAnchor == old(lo.LowerAnchor) && lo.UpperAnchor == old(lo.UpperAnchor)
 //@ spec macro wfRowCells(r table.Row) Bool = forall k string :: {has(r, k)} has(r, k) ==> r[k] != nil
+
+// ---- Storage driver failures surface as errors (C20); CREATE and DROP name exactly their graphs (C04) ----
+// $driverFailed (package storage) is set by the contract of every Store/Graph method that returns an
+// error. Each statement plan below returns an error whenever a driver call it made failed.
+//@ props C20 C04 C08
+//@ func (p *createPlan) Execute
+//@   opt terminates
+//@   requires p != nil && p.stm != nil && p.store != nil
+//@   modifies $driverFailed, $newGraphCalls
+//@   ensures[table-or-error] (result0 != nil && result1 == nil) || (result0 == nil && result1 != nil)
+//@   ensures[driver-error-surfaces@C20] $driverFailed && !old($driverFailed) ==> result1 != nil
+//@   ensures[one-creation-per-named-graph@C04] result0 != nil || ($driverFailed && !old($driverFailed)) ==> $newGraphCalls == old($newGraphCalls) + len(p.stm.graphNames)
+//@   atcall NewGraph assert[creates-the-next-named-graph@C04] 0 <= $newGraphCalls - old($newGraphCalls) && $newGraphCalls - old($newGraphCalls) < len(p.stm.graphNames) && id == p.stm.graphNames[$newGraphCalls - old($newGraphCalls)]
+//@   loop 0 invariant 0 <= $i && $i <= len(p.stm.graphNames) && p.stm == old(p.stm) && p.store == old(p.store) && p.stm.graphNames == old(p.stm.graphNames) && t != nil && $newGraphCalls == old($newGraphCalls) + $i && ($driverFailed && !old($driverFailed) ==> len(errs) > 0)
+
+//@ func (p *dropPlan) Execute
+//@   opt terminates
+//@   requires p != nil && p.stm != nil && p.store != nil
+//@   modifies $driverFailed, $deleteGraphCalls
+//@   ensures[table-or-error] (result0 != nil && result1 == nil) || (result0 == nil && result1 != nil)
+//@   ensures[driver-error-surfaces@C20] $driverFailed && !old($driverFailed) ==> result1 != nil
+//@   ensures[one-deletion-per-named-graph@C04] result0 != nil || ($driverFailed && !old($driverFailed)) ==> $deleteGraphCalls == old($deleteGraphCalls) + len(p.stm.graphNames)
+//@   atcall DeleteGraph assert[deletes-the-next-named-graph@C04] 0 <= $deleteGraphCalls - old($deleteGraphCalls) && $deleteGraphCalls - old($deleteGraphCalls) < len(p.stm.graphNames) && id == p.stm.graphNames[$deleteGraphCalls - old($deleteGraphCalls)]
+//@   loop 0 invariant 0 <= $i && $i <= len(p.stm.graphNames) && p.stm == old(p.stm) && p.store == old(p.store) && p.stm.graphNames == old(p.stm.graphNames) && t != nil && $deleteGraphCalls == old($deleteGraphCalls) + $i && ($driverFailed && !old($driverFailed) ==> len(errs) > 0)
+
+// INSERT and DELETE: update fans the batch out to every target graph on its own goroutine and joins
+// them (fork/join: verified with every goroutine run to completion when started - opt go-sequential);
+// an error of the graph lookup or of the write is returned.
+//@ func (p *insertPlan) Execute$1
+//@   opt dyn-target
+//@   captures deref(p) != nil
+//@   requires g != nil
+//@   modifies $driverFailed, $added
+//@   ensures[driver-error-surfaces@C20] $driverFailed && !old($driverFailed) ==> result != nil
+//@   atcall AddTriples assert[adds-exactly-the-batch-to-that-graph@C04] this == g && ts == d
+//@ func (p *deletePlan) Execute$1
+//@   opt dyn-target
+//@   captures deref(p) != nil
+//@   requires g != nil
+//@   modifies $driverFailed
+//@   ensures[driver-error-surfaces@C20] $driverFailed && !old($driverFailed) ==> result != nil
+//@   atcall RemoveTriples assert[removes-exactly-the-batch-from-that-graph@C04] this == g && ts == d
+//@ func update
+//@   opt go-sequential
+//@   opt terminates
+//@   requires store != nil && (f == fn("(*insertPlan).Execute$1") || f == fn("(*deletePlan).Execute$1"))
+//@   modifies $driverFailed, $added, $graphLookups
+//@   ensures[driver-error-surfaces@C20] $driverFailed && !old($driverFailed) ==> result != nil
+//@   ensures[every-target-graph-looked-up@C04] $graphLookups == old($graphLookups) + len(gbs)
+//@   atcall Graph assert[looks-up-the-next-target-graph@C04] 0 <= $graphLookups - old($graphLookups) && $graphLookups - old($graphLookups) < len(gbs) && id == gbs[$graphLookups - old($graphLookups)]
+//@   atcall f assert[hands-the-whole-batch-to-the-graph-just-looked-up@C04] $1 == ts && $0 == g && $0 != nil
+//@   loop 0 invariant 0 <= $i && $i <= len(gbs) && $graphLookups == old($graphLookups) + $i && ($driverFailed && !old($driverFailed) ==> len(deref(addr(errs))) > 0)
+//@ func (p *insertPlan) Execute
+//@   opt terminates
+//@   requires p != nil && p.stm != nil && p.store != nil
+//@   modifies $driverFailed, $added, $graphLookups
+//@   ensures[driver-error-surfaces@C20] $driverFailed && !old($driverFailed) ==> result1 != nil
+//@   atcall update assert[the-listed-triples-into-the-output-graphs@C04] ts == p.stm.data && gbs == p.stm.outputGraphNames && store == p.store && f == fn("(*insertPlan).Execute$1")
+//@ func (p *deletePlan) Execute
+//@   opt terminates
+//@   requires p != nil && p.stm != nil && p.store != nil
+//@   modifies $driverFailed, $added, $graphLookups
+//@   ensures[driver-error-surfaces@C20] $driverFailed && !old($driverFailed) ==> result1 != nil
+//@   atcall update assert[the-listed-triples-from-the-input-graphs@C04] ts == p.stm.data && gbs == p.stm.inputGraphNames && store == p.store && f == fn("(*deletePlan).Execute$1")
+
+// SHOW GRAPHS: the listing runs on its own goroutine and hands its error over a channel (fork/join:
+// opt go-sequential); the statement fails when the listing failed.
+//@ func (p *showPlan) Execute
+//@   opt go-sequential
+//@   requires p != nil && p.store != nil
+//@   modifies $driverFailed
+//@   ensures[table-or-error] (result0 != nil && result1 == nil) || (result0 == nil && result1 != nil)
+//@   ensures[driver-error-surfaces@C20] $driverFailed && !old($driverFailed) ==> result1 != nil
+//@   loop 0 invariant t != nil && t.#lock_mu == 0 && errs.#len == 1 && errs.#rcvd == 0 && errs.#closed == 1 && ($driverFailed && !old($driverFailed) ==> errs.#out[0] != nil)
+
+//@ props C20 C03 C08
+// addTriples, as a function of the complete (closed) sequence of triples it is handed: no panic,
+// terminates, touches only the table it fills, keeps the rows that were there.
+//@ func drainChannel
+//@   opt go-sequential
+//@   requires ch != nil && ch.#closed == 1 && 0 <= ch.#rcvd
+//@   modifies ch.#rcvd
+//@   loop 0 invariant 0 <= ch.#rcvd && ch.#closed == 1 && ch.#len == atentry(ch.#len)
+//@   loop 0 decreases ch.#len - ch.#rcvd
+//@ func addTriples
+//@   opt go-sequential
+//@   opt terminates
+//@   requires ts != nil && cls != nil && tbl != nil && tbl.#lock_mu == 0 && ts.#closed == 1 && 0 <= ts.#rcvd
+//@   requires[triples-well-formed] forall k int :: {ts.#out[k]} 0 <= k && k < ts.#len ==> wfTriple(ts.#out[k])
+//@   modifies tbl.Data, tbl.#lock_mu, ts.#rcvd
+//@   ensures[lock] tbl.#lock_mu == 0
+//@   ensures[old-rows-kept] len(tbl.Data) >= old(len(tbl.Data)) && (forall j int :: {tbl.Data[j]} 0 <= j && j < old(len(tbl.Data)) ==> tbl.Data[j] == old(tbl.Data[j]))
+//@   loop 0 invariant tbl.#lock_mu == 0 && 0 <= ts.#rcvd && ts.#closed == 1 && ts.#len == atentry(ts.#len) && len(tbl.Data) >= old(len(tbl.Data)) && (forall j int :: {tbl.Data[j]} 0 <= j && j < old(len(tbl.Data)) ==> tbl.Data[j] == old(tbl.Data[j])) && (forall k int :: {ts.#out[k]} 0 <= k && k < ts.#len ==> wfTriple(ts.#out[k]))
+//@   loop 0 decreases ts.#len - ts.#rcvd
+
+// simpleExist: the existence test of a fully specified clause, graph by graph; a failing driver
+// call is returned as an error.
+//@ func simpleExist
+//@   opt go-sequential
+//@   opt terminates
+//@   requires cls != nil && wfTriple(t) && (forall j int :: {gs[j]} 0 <= j && j < len(gs) ==> gs[j] != nil)
+//@   modifies $driverFailed
+//@   ensures[table-or-error] (result1 != nil && result2 == nil) || (result1 == nil && result2 != nil)
+//@   ensures[driver-error-surfaces@C20] $driverFailed && !old($driverFailed) ==> result2 != nil
+//@   loop 0 invariant 0 <= $i && $i <= len(gs) && tbl != nil && fresh(tbl) && tbl.#lock_mu == 0 && $driverFailed == old($driverFailed)
